@@ -4,6 +4,7 @@ import (
 	"sort"
 	"strings"
 
+	"qverif/core"
 	"qverif/engine"
 	"qverif/rules"
 )
@@ -67,6 +68,7 @@ func init() {
 		c.R.Min("op.vjp_comparisons", 300)
 		c.R.NotDecide("numeric conditioning; Max/MinAlong at ties; that the forward kernels are the mathematical functions (C03/C05)")
 		c.R.NotDecide("ranks above the tier bound (quick: unary<=3, binary<=2(+1 for contractions); thorough: unary<=5, binary<=3)")
+		statelessPremise(c, false)
 		addOpsAssumptions(c)
 	})
 	register("C07", "gradient of a broadcast operand is the sum over its copies", func(c *Ctx) {
@@ -84,6 +86,7 @@ func init() {
 			return f.Expanding && isGradRule(f.Rule)
 		}})
 		c.R.Min("op.closure_evaluations", 200)
+		statelessPremise(c, false)
 		addOpsAssumptions(c)
 	})
 }
@@ -132,6 +135,7 @@ func init() {
 		}
 		c.R.NotDecide("DAGs outside the enumerated templates (the structural rules S2a-d hold for all graphs; value equality is established per template)")
 		c.R.NotDecide("operations other than Scale/Exp/Add/Mul inside the templates (their local rules are C02)")
+		statelessPremise(c, false)
 		addOpsAssumptions(c)
 	})
 	register("C08", "tracking propagates, isolates and retires as specified", func(c *Ctx) {
@@ -191,6 +195,8 @@ func init() {
 		e := engine.NewOpEngine(c.P, c.A)
 		e.RunLossChecks()
 		fileOps(c, e, OpFilter{Keep: componentKeep})
+		// premise: the tensor operations the losses are composed of meet their element specification
+		premiseOps(c, core.PkgLosses)
 		c.R.Count("component.abstract_paths", e.Paths)
 		c.R.Min("component.abstract_paths", 30)
 		for fn := range e.Funcs {
@@ -201,11 +207,39 @@ func init() {
 	})
 }
 
-func componentCheck(run func(e *engine.OpEngine, c *Ctx), minPaths int) func(c *Ctx) {
+// statelessPremise: the instance-based engines interpret one public call (or one short program) at a time;
+// their verdicts extend to arbitrary call sequences only if operations keep no state between calls.  S3 (no
+// function writes a field of a tensor / gradient context it did not allocate, outside the walk and
+// ResetGradContext) and S8 (no mutable package state) establish that; S13 does the same for components.
+func statelessPremise(c *Ctx, components bool) {
+	c.R.Rule("premise (statelessness): S3 field-write ownership + S8 no mutable package state" + map[bool]string{true: " + S13 no tensor parked in component state", false: ""}[components] + ": per-call verdicts extend to call sequences (repeated use of an operand, use after ResetGradContext, a second training step)")
+	rules.S3Ownership(c.P, c.A, c.R)
+	rules.S8SharedState(c.P, c.A, c.R)
+	if components {
+		rules.S13TensorRetention(c.P, c.A, c.R)
+	}
+}
+
+// premiseOps runs the labelled-element comparison for every Tensor method a component package invokes
+// (resolved from the interface-call sites of its functions): the component's formula is composed from the
+// specification of these operations, so their element-level agreement is a premise of the component property.
+func premiseOps(c *Ctx, pkg string) {
+	names := engine.TensorMethodsInvokedBy(c.P, c.A, pkg)
+	if len(names) == 0 {
+		return
+	}
+	c.R.Rule("premise D.elements: the Tensor methods invoked by " + pkg[strings.LastIndex(pkg, "/")+1:] + " (" + strings.Join(names, ", ") + ") are re-checked in labelled-element mode (incl. sizes straddling every block/chunk constant of the implementation)")
+	RunData(c, inSet(names...), dataKeep)
+}
+
+func componentCheck(run func(e *engine.OpEngine, c *Ctx), minPaths int, premisePkgs ...string) func(c *Ctx) {
 	return func(c *Ctx) {
 		e := engine.NewOpEngine(c.P, c.A)
 		run(e, c)
 		fileOps(c, e, OpFilter{Keep: componentKeep})
+		for _, pk := range premisePkgs {
+			premiseOps(c, pk)
+		}
 		c.R.Count("component.abstract_paths", e.Paths)
 		c.R.Min("component.abstract_paths", minPaths)
 		for fn := range e.Funcs {
@@ -226,7 +260,7 @@ func init() {
 		}
 		e.RunActivationChecks(r)
 		c.R.NotDecide("overflow of e^x for |x| > 700; floating-point rounding")
-	}, 60))
+	}, 60, core.PkgActs))
 	register("C17", "SGD update subtracts learning-rate times gradient", componentCheck(func(e *engine.OpEngine, c *Ctx) {
 		c.R.Rule("A2.formula: after Update the tensor behind the pointer has element expression w - lr·g (lr symbolic, nil-config default 0.01, 0 and negative), same shape, ranks 0..bound")
 		c.R.Rule("C10.mutation/C17.replaced: Update stores only through the given pointer; the previous tensor object and its gradient are not written")
@@ -236,21 +270,22 @@ func init() {
 			r = 5
 		}
 		e.RunSGDChecks(r)
-	}, 30))
+	}, 30, core.PkgOptimizers))
 	register("C19", "accuracy equals matched over total", componentCheck(func(e *engine.OpEngine, c *Ctx) {
 		c.R.Rule("A2.formula: after any sequence of accepted batches (symbolic sizes) total = Σ sizes, correct = Σ_batches Σ_i [|p_i - t_i| <= τ], Result = correct/total and 0 before any batch: additive updates make the value independent of the partition")
 		c.R.Rule("S7: rejected calls (nil, wrong rank, mismatched lengths), also interleaved between accepted ones, leave both counters unchanged")
 		e.RunAccuracyChecks()
 		c.R.NotDecide("0 <= correct <= total relies on the Eq mask being 0/1 (C03)")
-	}, 10))
+	}, 10, core.PkgMetrics))
 	register("C16", "FC layer is an affine map with live parameters (forward, pointers, validation)", componentCheck(func(e *engine.OpEngine, c *Ctx) {
 		c.R.Rule("A2.formula: Forward, interpreted with W, B replaced through the Weights() pointers by non-uniform leaves, yields y[b][o] = W[o]·Σ_d x[b][d] + B[o] with shape [batch, Outputs] for symbolic and unit batch/feature/output sizes")
 		c.R.Rule("S12: Weights() returns pointers to the layer's own Weight and Bias fields (replacements reach the next Forward), both trainable")
 		c.R.Rule("A4.pre / A1.shape: default initialisation gives tracked parameters of shape [Outputs]; invalid configs and inputs are rejected with an error")
 		e.RunFCChecks()
+		statelessPremise(c, true)
 		c.R.Rule("gradients of W, B and x: compositional over C01, C02 (UnSqueeze, MatMul, SumAlong, Add) and C07; the C07 obligations of the expansions FC uses are re-run here and carry known finding D2 (parameter gradients divided by the batch size)")
 		RunOps(c, OpFilter{Methods: []string{"Broadcast"}, Keep: func(rule, construct string) bool { return isGradRule(rule) && isBroadcastConstruct(construct) }})
-	}, 10))
+	}, 10, core.PkgLayers))
 }
 
 // RunData runs the labelled-element engine on the selected operations.
@@ -361,6 +396,7 @@ func init() {
 		rules.S4Provenance(c.P, c.A, c.R)
 		rules.S5Retention(c.P, c.A, c.R)
 		rules.S3Ownership(c.P, c.A, c.R)
+		rules.S13TensorRetention(c.P, c.A, c.R)
 		RunData(c, func(string) bool { return true }, func(rule, construct string) bool { return rule == "C10.mutation" })
 		addOpsAssumptions(c)
 	})
@@ -369,6 +405,7 @@ func init() {
 		rules.S8SharedState(c.P, c.A, c.R)
 		rules.S4Provenance(c.P, c.A, c.R)
 		rules.S3Ownership(c.P, c.A, c.R)
+		rules.S13TensorRetention(c.P, c.A, c.R)
 		rules.S2Walk(c.P, c.A, c.R)
 		e := engine.NewOpEngine(c.P, c.A)
 		e.RunRandomDrawChecks()
@@ -384,6 +421,7 @@ func init() {
 		e.RunInitializerChecks(3)
 		e.RunRandomDrawChecks()
 		rules.S8SharedState(c.P, c.A, c.R)
+		rules.S13TensorRetention(c.P, c.A, c.R)
 		c.R.Assume("gonum's Uniform.Rand returns values in [Min,Max) and Normal.Rand is N(Mu,Sigma); both use a locked global source when Src is nil")
 		c.R.NotDecide("convergence of sample moments / independence (statistical)")
 	}, 50))
@@ -395,6 +433,7 @@ func init() {
 		e.RunLossGradientChecks()
 		c.R.Rule("C13.tolerance: the Eq kernel's absolute tolerance (extracted from the interpreted kernel's branch condition) is strictly below the clipping epsilon 1e-12, so a prediction of exactly 0 or 1 is not tied with a clip bound")
 		e.RunToleranceCheck("cputensor.(*CPUTensor).Eq/tolerance")
+		statelessPremise(c, true)
 		c.R.NotDecide("predictions exactly at the two clipping bounds (excluded by the quantifier); floating-point rounding")
 	}, 30))
 	register("C15", "activation gradients equal the derivative of the activation, also in a chain", componentCheck(func(e *engine.OpEngine, c *Ctx) {
@@ -406,12 +445,18 @@ func init() {
 		e.RunActivationGradientChecks(r)
 		c.R.Rule("C13.tolerance (shared): the equality tolerance that defines a tie at 0 is strictly below 1e-12")
 		e.RunToleranceCheck("cputensor.(*CPUTensor).Eq/tolerance")
-		c.R.NotDecide("|x| up to 700 is represented by the interval [-50,50] for finiteness; rounding")
+		statelessPremise(c, true)
+		c.R.Rule("A3.finite at the extremes: with a unit chain factor and |x| <= 700 the interval of the gradient contains no NaN (0·Inf / Inf-Inf in the backward pass)")
+		c.R.NotDecide("finiteness for symbolic chain factors is decided on [-50,50]; rounding")
 	}, 30))
 	register("C11", "a training loop follows gradient descent", componentCheck(func(e *engine.OpEngine, c *Ctx) {
 		c.R.Rule("C11.loop/C11.shape/C11.no-leak: FC→{Sigmoid,Relu}→CE→BackPropagate→SGD.Update→ResetGradContext(true) interpreted for two steps with symbolic widths, batch size symbolic and 1: every update succeeds, weights keep shape [Outputs], and the step-2 update expression equals the step-1 update expression with the weights renamed (nothing - gradients, edges, spent flags, cached tensors - leaks across steps); with the reset omitted the next update must report the missing gradient")
 		c.R.Rule("value of the trajectory w ← w - lr·∂L/∂w: compositional over C01 (walk), C02 (local rules), C07 (expansion), C17 (update); the C07 obligations of the expansions FC uses are re-run here and carry known finding D2")
 		e.RunTrainingLoopChecks()
+		c.R.Rule("premises re-run here: C13.gradient of CE/MSE/BCE and C15.gradient of the activations (the gradient that SGD applies is their composition), statelessness of operations and components")
+		e.RunLossGradientChecks()
+		e.RunActivationGradientChecks(2)
+		statelessPremise(c, true)
 		RunOps(c, OpFilter{Methods: []string{"Broadcast"}, Keep: func(rule, construct string) bool { return isGradRule(rule) && isBroadcastConstruct(construct) }})
 	}, 8))
 }
